@@ -2,10 +2,14 @@
 (* Lattice enumeration for Geocentric / LocalCartesian (C07).                 *)
 (* root -> chunk c -> vectors.  Part selects the family of vectors:           *)
 (*   "geo": Forward / Reverse on the axis lattice; "loc": LocalCartesian;     *)
-(*   "box": regime x class x ellipsoid x sign pattern x scale boxes.          *)
+(*   "box": regime x class x ellipsoid x sign pattern x scale boxes;          *)
+(*   "obj": the state graph of a LocalCartesian object - every constructor    *)
+(*   form followed by every sequence of at most Depth - 1 Reset forms /       *)
+(*   copies (a real history: v = <<"obj", ops>>), each emitted with the model *)
+(*   state after every operation and the lattice queries that observe it.     *)
 EXTENDS Geocentric, TLC, Json
 
-CONSTANTS Part, NChunks, Dense
+CONSTANTS Part, NChunks, Dense, Depth
 VARIABLE v
 
 InChunk(S, C) == {x \in S : x % NChunks = C}
@@ -21,7 +25,7 @@ HFew == {-100000, -1, 0, 5, 1000, 536870912}
 \* radii for Reverse on the axes
 RSet(fi) == LET B == SemiB(fi) IN
   {1, 2, 3, 1000, DiscR - 1, DiscR, DiscR + 1, SegZ, SegZ + 1, SegZ + 2, 100000, B - 1, B, B + 1, A - 1, A, A + 1,
-   2 * A, 1073741824} \cup (IF Dense THEN {2 ^ k : k \in 2..29} \cup {DiscR - 2 ^ k : k \in 1..15} ELSE {})
+   2 * A, 1073741824} \cup (IF fi = 2 THEN {CuspR - 1, CuspR, CuspR + 1} ELSE {}) \cup (IF Dense THEN {2 ^ k : k \in 2..29} \cup {DiscR - 2 ^ k : k \in 1..15} ELSE {})
 Axis(n, s) == CASE n = 1 -> <<s, 0, 0>> [] n = 2 -> <<0, s, 0>> [] n = 3 -> <<0, 0, s>>
 
 VecGeo(C) ==
@@ -30,6 +34,11 @@ VecGeo(C) ==
   \/ \E r \in InChunk(RSet(0) \cup RSet(1) \cup RSet(2), C), fi \in Fis, n \in 1..3, s \in {-1, 1} :
         r \in RSet(fi) /\ v' = <<"gr", fi>> \o Axis(n, s * r)
   \/ C = 0 /\ \E fi \in Fis : v' = <<"gr", fi, 0, 0, 0>>
+  \* the M overloads: entry point x length of the vector x lattice ellipsoid x a few lattice points
+  \/ \E n \in InChunk(MSizes, C), ent \in MEntries, fi \in Fis, lat \in Lat3, lon \in {0, 90, -180}, h \in {0, 7} :
+        v' = <<"mv", ent, n, fi, lat, lon, h>>
+  \* Geocentric objects: construction forms x family
+  \/ \E fi \in InChunk(-1..(NFam - 1), C), form \in GeoForms : fi \in GeoFormFis(form) /\ v' = <<"go", form, fi>>
 
 \* local points: lattice geodetic points and local offsets
 DSet == {-100000, -7, -1, 0, 1, 1000, 4194304}
@@ -41,6 +50,52 @@ VecLoc(C) ==
         LET st == LocalState(fi, lat0, lon0, h0)
             P == LocalToGeocentric(st, Axis(n, d))
         IN OnAxes(P[1], P[2], P[3]) /\ v' = <<"lr", fi, lat0, lon0, h0>> \o Axis(n, d)
+
+(* ------------------------------ LocalCartesian object histories ---------- *)
+OLon == {0, 90, -180} \cup (IF Dense THEN {450} ELSE {})
+OH == {0, 7} \cup (IF Dense THEN {-100000} ELSE {})
+OrgObj == {<<la, lo, h>> : la \in Lat3, lo \in OLon, h \in OH}
+OFis == Fis \cup {WGS}
+CtorOps == {<<"c4", fi, o[1], o[2], o[3]>> : fi \in OFis, o \in OrgObj}
+           \cup {<<"c3", -1, o[1], o[2], o[3]>> : o \in OrgObj}
+           \cup {<<"c2", -1, la, lo, 0>> : la \in Lat3, lo \in OLon}
+           \cup {<<"c1", fi, 0, 0, 0>> : fi \in OFis} \cup {<<"c0", -1, 0, 0, 0>>}
+StepOps == {<<"r3", -1, o[1], o[2], o[3]>> : o \in OrgObj} \cup {<<"r2", -1, la, lo, 0>> : la \in Lat3, lo \in OLon}
+           \cup {<<"cp", -1, 0, 0, 0>>, <<"as", -1, 0, 0, 0>>}
+ChunkOf(o) == (o[2] + 1 + 5 * ((o[3] + 90) \div 90) + 17 * ((o[4] + 180) \div 90) + 3 * o[5]) % NChunks
+\* queries that observe an object in state st, chosen so that the exact integer model applies: Forward of the point d
+\* above the origin (-> (0, 0, d)) and of two other lattice points; Reverse of the origin, of a point on the local z axis
+\* and of the local offsets that land on a geocentric axis
+ObjQueries(st) ==
+  IF ~LcModelled(st) THEN <<>>
+  ELSE LET fi == st[1]  lat0 == st[2]  lon0 == st[3]  h0 == st[4] IN
+       IF fi = WGS THEN << <<"fw", -1, 0, lon0, h0 + 5>>, <<"fw", -1, 0, lon0 + 90, 1000>> >>
+       ELSE << <<"fw", -1, lat0, lon0, h0 + 5>>, <<"fw", -1, 0, 90, 1000>>, <<"fw", -1, 90, 0, -1>>,
+               <<"rv", -1, 0, 0, 0>>, <<"rv", -1, 0, 0, 7>>, <<"rv", -1, 0, 0, -A - h0>> >>
+\* rows for the driver: each operation with the model state after it, then the queries on the final state
+RECURSIVE ObjRows(_, _, _)
+ObjRows(ops, i, st) ==
+  IF i > Len(ops) THEN [j \in 1..Len(ObjQueries(st)) |-> ObjQueries(st)[j] \o st]
+  ELSE LET st2 == LcApply(st, ops[i], 0) IN <<ops[i] \o st2>> \o ObjRows(ops, i + 1, st2)
+VecObj(C) == \E o \in CtorOps : ChunkOf(o) = C /\ v' = <<"obj", <<o>>>>
+StepObj == /\ v[1] = "obj" /\ Len(v[2]) < Depth
+           /\ \E o \in StepOps : LcEnabled(LcRun(v[2], 0), o) /\ v' = <<"obj", Append(v[2], o)>>
+
+(* ------------------------------ CartConvert lines ------------------------- *)
+TOrg == {<<0, 0, 0>>, <<0, 90, 5>>, <<90, 0, 0>>, <<-90, -180, 7>>}
+TPrec == {0, 3, 6}
+VecTool(C) ==
+  \/ \E fi \in InChunk(OFis, C), w \in {0, 1}, p \in TPrec, lat \in Lat3, lon \in {-180, -90, 0, 90, 270}, h \in {0, 5, -100000} :
+        (fi = WGS => lat = 0) /\ v' = <<"t", "gf", fi, w, p, 0, 0, 0, lat, lon, h>>
+  \/ \E fi \in InChunk(OFis, C), w \in {0, 1}, p \in TPrec, n \in 1..3, s \in {-1, 1}, r \in {1000, 100000, A, WGS84A, 2 * A} :
+        /\ (fi = WGS => n # 3 /\ r >= 100000)                      \* WGS84: equatorial plane, outside its singular disc (42.7 km)
+        /\ ToolExactRev("gr", fi, 0, 0, 0, Axis(n, s * r)[1], Axis(n, s * r)[2], Axis(n, s * r)[3])
+        /\ v' = <<"t", "gr", fi, w, p, 0, 0, 0>> \o Axis(n, s * r)
+  \/ \E fi \in InChunk(OFis, C), w \in {0, 1}, p \in TPrec, o \in TOrg, lat \in Lat3, lon \in {0, 90, 180}, h \in {0, 1000} :
+        (fi = WGS => lat = 0 /\ o[1] = 0) /\ v' = <<"t", "lf", fi, w, p, o[1], o[2], o[3], lat, lon, h>>
+  \/ \E fi \in InChunk(Fis, C), w \in {0, 1}, p \in TPrec, o \in TOrg, n \in 1..3, d \in {-7, 0, 1000, 100000} :
+        /\ ToolExactRev("lr", fi, o[1], o[2], o[3], Axis(n, d)[1], Axis(n, d)[2], Axis(n, d)[3])
+        /\ v' = <<"t", "lr", fi, w, p, o[1], o[2], o[3]>> \o Axis(n, d)
 
 Signs == {-1, 0, 1}
 VecBox(C) ==
@@ -54,6 +109,9 @@ Next ==
      /\ CASE Part = "geo" -> VecGeo(v[2])
           [] Part = "loc" -> VecLoc(v[2])
           [] Part = "box" -> VecBox(v[2])
+          [] Part = "obj" -> VecObj(v[2])
+          [] Part = "tool" -> VecTool(v[2])
+  \/ Part = "obj" /\ StepObj
 
 (* ------------------------------ model invariants ------------------------- *)
 \* Reverse o Forward = identity on principal answers; Forward o Reverse = identity on every exact answer
@@ -121,5 +179,42 @@ BoxInv ==
        /\ Spheres \cup Oblates \cup Prolates = 0..(NFam - 1)
        /\ Spheres \cap Oblates = {} /\ Spheres \cap Prolates = {} /\ Oblates \cap Prolates = {}
 
-Emit == v[1] \notin {"root", "chunk"} => PrintT(ToJson(v))
+\* the M overloads: the model of one call with a vector of length n
+MvInv ==
+  v[1] = "mv" => /\ v[2] \in MEntries /\ v[3] \in MSizes
+                 /\ MWritten(v[3]) \in {0, MLen} /\ (MWritten(v[3]) = MLen <=> v[3] = MLen)
+                 /\ MCallOK(<<v[3], MWritten(v[3]), TRUE>>)
+                 /\ ~MCallOK(<<v[3], MLen - MWritten(v[3]), TRUE>>) /\ ~MCallOK(<<v[3], MWritten(v[3]), FALSE>>)
+\* object histories: whatever the history, the object is the one a single general-form constructor call builds
+\* (ellipsoid of its constructor, origin of its last constructor / Reset); defaults resolve to WGS84 and to 0
+ObjInv ==
+  v[1] = "obj" =>
+    LET ops == v[2]  st == LcRun(ops, 0)  g == LcGeneral(ops, 0) IN
+    /\ st # LcNone /\ ops[1][1] \in LcCtors /\ \A i \in 2..Len(ops) : ops[i][1] \notin LcCtors
+    /\ g[1] = "c4" /\ st = LcRun(<<g>>, 0)
+    /\ (ops[1][1] \in {"c3", "c2", "c0"} => st[1] = WGS)
+    /\ (ops[LcLastSet(ops)][1] \in {"c2", "c1", "c0", "r2"} => st[4] = 0)
+    /\ (ops[LcLastSet(ops)][1] \in {"c1", "c0"} => st[2] = 0 /\ st[3] = 0)
+    /\ \A i \in 1..Len(ObjQueries(st)) : LcEnabled(st, ObjQueries(st)[i])
+    \* the queries really are lattice queries of the model
+    /\ \A i \in 1..Len(ObjQueries(st)) :
+         LET q == ObjQueries(st)[i] IN
+         IF q[1] = "fw" THEN OnAxes(Fwd(st[1], q[3], q[4], q[5])[1], Fwd(st[1], q[3], q[4], q[5])[2], Fwd(st[1], q[3], q[4], q[5])[3])
+         ELSE LET P == LocalToGeocentric(LcLocal(st), <<q[3], q[4], q[5]>>) IN OnAxes(P[1], P[2], P[3])
+    /\ (LcModelled(st) => LocalFwd(LcLocal(st), Fwd(st[1], st[2], st[3], st[4] + 5)) = <<0, 0, 5>>)
+
+\* tool lines: three outputs, each a non-empty set of integers; forward lines have exactly one answer; -w only swaps the
+\* two angles of a reverse line
+ToolInv ==
+  v[1] = "t" =>
+    LET W == ToolWant(v[2], v[3], v[4], v[6], v[7], v[8], v[9], v[10], v[11])
+        W0 == ToolWant(v[2], v[3], 0, v[6], v[7], v[8], v[9], v[10], v[11]) IN
+    /\ v[2] \in ToolModes /\ Len(W) = 3 /\ \A i \in 1..3 : W[i][2] # {} /\ W[i][1] \in {"len", "ang"}
+    /\ (v[2] \in {"gf", "lf"} => W = W0 /\ \A i \in 1..3 : W[i][1] = "len" /\ Cardinality(W[i][2]) = 1)
+    /\ (v[2] \in {"gr", "lr"} => W[3] = W0[3] /\ W[3][1] = "len" /\ {W[1], W[2]} = {W0[1], W0[2]} /\ (v[4] = 1 => W[1] = W0[2]))
+    /\ \A i \in 1..3 : ToolDigits(W[i][1], v[5]) = (IF W[i][1] = "ang" THEN v[5] + 5 ELSE v[5])
+
+Emit == CASE v[1] \in {"root", "chunk"} -> TRUE
+          [] v[1] = "obj" -> PrintT(ToJson(<<"obj", ObjRows(v[2], 1, LcNone)>>))
+          [] OTHER -> PrintT(ToJson(v))
 =============================================================================
